@@ -137,7 +137,7 @@ func (e *keyEnv) checkCpc(i int, idx *hashIndex) {
 		run.Distinct("cpc_errors", trunc(err.Error(), 120))
 		return
 	}
-	if !idx.put(hA, ident(tm, chain)) {
+	if ok, _ := idx.put(hA, ident(tm, chain), i); !ok {
 		run.Violation("cpc-eip712-hash-collision:global", label, map[string]any{"message": tm, "chain_id": chain.String(), "hash": hex.EncodeToString(hA)})
 	}
 	sig, err := ethcrypto.Sign(hA, acct.Key)
@@ -180,7 +180,7 @@ func (e *keyEnv) checkCpc(i int, idx *hashIndex) {
 		default:
 			run.Count("cpc.hash-differs:"+p.field, 1)
 			e.cpcCompared.Add(1)
-			if !idx.put(hB, ident(p.tm, p.chain)) {
+			if ok, _ := idx.put(hB, ident(p.tm, p.chain), i); !ok {
 				run.Violation("cpc-eip712-hash-collision:global", label, w(extra))
 			}
 		}
